@@ -22,12 +22,12 @@ import random
 ID = "C17"
 CTX_BASE = 100000     # ids of Task objects created by insert_context inside a builder history
 DRIVER = "drv_c17"
-LEAN_TARGETS = ["PharmpyProofs.C17.Properties", "drv_c17"]
-PROPERTIES = ["PharmpyProofs/C17/Properties.lean"]
+LEAN_TARGETS = ["PharmpyProofs.C17.Properties", "PharmpyProofs.C17.ScatterProperties", "drv_c17"]
+PROPERTIES = ["PharmpyProofs/C17/Properties.lean", "PharmpyProofs/C17/ScatterProperties.lean"]
 LEAN_SOURCES = ["PharmpyModel/C17/*.lean", "PharmpyModel/Generated/C17Task.lean", "PharmpyProofs/C17/*.lean", "Drivers/C17.lean"]
 TIME_LIMIT = {"quick": 900, "thorough": 3000}
 CASE_CPU_LIMIT = 30
-RULE = ("about 1 case in 40 is a NESTED execution on the real distributed dispatcher (LocalCluster in-process): a parent workflow in which 1-2 tasks call context.call_workflow on child workflows (grandchildren possible, two siblings alive at once), all graphs instances of 1-2 recipes so that live graphs share task names and positions but differ in static inputs; compared with the sequential evaluation (children first), exactly-once calls per (graph, task), key-disjointness of all submitted dicts. The other cases: seeded programs of builder operations (new/tasks=, add_task with 0-3 predecessors in random order, "
+RULE = ("about 1 case in 12 is a dask dict (2-7 tasks, one sink) given to the distributed dispatcher's graph rewriting optimize_task_graph_for_dask_distributed under a recording client: static inputs are kept values (str/int/bool/dict/range/callable), None, hashable value objects and unhashable objects (scattered), nested lists, empty and literal tuples; value objects take their equality key from a pool of 1-3 with a unique observable label, so distinct objects that compare and hash equal occur in different tasks by construction; the rewritten graph with futures read as their datum must be the declared graph and evaluate like it. About 1 case in 40 is a NESTED execution on the real distributed dispatcher (LocalCluster in-process): a parent workflow in which 1-2 tasks call context.call_workflow on child workflows (grandchildren possible, two siblings alive at once), all graphs instances of 1-2 recipes so that live graphs share task names and positions but differ in static inputs (in 2/3 of these cases most tasks also get a scattered value-object static input with an equality key from a pool of 1-2); compared with the sequential evaluation (children first), exactly-once calls per (graph, task), key-disjointness of all submitted dicts. The other cases: seeded programs of builder operations (new/tasks=, add_task with 0-3 predecessors in random order, "
         "replace_task, insert_workflow with None/explicit predecessors incl. N:N, 1:N, N:1, N:M, "
         "+, Workflow()/WorkflowBuilder() copies, reading input_tasks/output_tasks between steps, "
         "add_task(t, predecessors=wb.output_tasks), insert_context on the builder mid-history, and the history "
@@ -48,7 +48,8 @@ TRUSTED = [
     "is replayed in the model); graph-literal rules for str/tuple/list static inputs",
     "harness/corr/c17.py (generator, term-building task family, canonicalisation by task name)",
     "the distributed dispatcher is exercised for nested cases only (LocalCluster(processes=False) in the worker process); "
-    "distributed's scheduler and optimize_task_graph_for_dask_distributed/fuse are not modelled beyond dask's get contract",
+    "distributed's scheduler and dask's fuse are not modelled beyond dask's get contract; optimize_task_graph_for_dask_distributed's "
+    "scattering is modelled (Scatter.lean) and compared under a recording client whose Futures stand for the scattered datum",
     "uuid4 freshness: every as_dask_dict call draws keys no other live graph has (stated as hypothesis of "
     "scheduler_keys_distinct; checked on the real dicts of every case)",
 ]
@@ -266,6 +267,9 @@ def gen_nested(rng: random.Random, tier: str):
     SAME name at the SAME position, with different static inputs (hence different values)."""
     recipes = [gen_recipe(rng, rng.randint(2, 5)) for _ in range(rng.randint(1, 2))]
     graphs = []
+    pobj = rng.choice([0.0, 0.6, 0.9])     # static inputs that are value objects: equal (same key), distinct, labelled
+    nkeys = rng.randint(1, 2)
+    nobj = [0]
 
     def instance(depth):
         g = len(graphs)
@@ -277,7 +281,12 @@ def gen_nested(rng: random.Random, tier: str):
         pctx = rng.choice([0.0, 0.0, 0.3])
         tasks, calls = [], {}
         for i in range(n):
-            tasks.append([i, i in callers or rng.random() < pctx, [["s", f"g{g}s{i}"]] if rng.random() < 0.8 else []])
+            st = [["s", f"g{g}s{i}"]] if rng.random() < 0.8 else []
+            if rng.random() < pobj:
+                # a value object (scattered by the distributed dispatcher): equality key from a small pool, label unique
+                nobj[0] += 1
+                st.insert(rng.randint(0, len(st)), ["obj", rng.randrange(nkeys), nobj[0]])
+            tasks.append([i, i in callers or rng.random() < pctx, st])
         ops = [["new", 0]] + [["add", 0, t, ps if ps else None] for t, ps in rec]
         graphs[g] = {"tasks": tasks, "ops": ops, "calls": calls}
         for c in callers:
@@ -289,8 +298,14 @@ def gen_nested(rng: random.Random, tier: str):
 
 
 def gen_cases(rng: random.Random, n: int, tier: str):
-    # about 1 case in 40 is a nested execution on the real distributed dispatcher (LocalCluster in-process)
-    return [gen_nested(rng, tier) if rng.random() < 0.025 else gen_case(rng, tier) for _ in range(n)]
+    # about 1 case in 40 is a nested execution on the real distributed dispatcher (LocalCluster in-process);
+    # about 1 in 12 a dask graph with scattered static inputs given to the distributed dispatcher's graph rewriting
+    from harness.corr import c17_util as U
+    out = []
+    for _ in range(n):
+        r = rng.random()
+        out.append(gen_nested(rng, tier) if r < 0.025 else U.gen_scatter(rng, tier) if r < 0.105 else gen_case(rng, tier))
+    return out
 
 
 def corpus_cases():
@@ -351,10 +366,18 @@ def corpus_cases():
             {"tasks": [[0, False, [S("b0")]], [1, False, [S("b1")]]], "ops": [["new", 0], ["add", 0, 0, None], ["add", 0, 1, [0]]], "calls": {}}]},
         # two sinks: documented refusal
         dict(base, tasks=[[0, False, []], [1, False, []]], ops=[["newtasks", 0, [0, 1]]]),
-    ]
+        # distributed dispatcher: two tasks whose static inputs are DISTINCT objects that compare equal (same key)
+        {"kind": "nested", "seed": 9, "graphs": [
+            {"tasks": [[0, False, [["obj", 0, 1]]], [1, False, [["obj", 0, 2]]], [2, False, []]],
+             "ops": [["new", 0], ["add", 0, 0, None], ["add", 0, 1, None], ["add", 0, 2, [0, 1]]], "calls": {}}]},
+    ] + __import__("harness.corr.c17_util", fromlist=["x"]).scatter_corpus()
 
 
 def shrink(case):
+    if case.get("kind") == "scatter":
+        from harness.corr import c17_util as U
+        yield from U.shrink_scatter(case)
+        return
     if case.get("kind") == "nested":
         gs = case["graphs"]
         for g, gr in enumerate(gs):
@@ -720,6 +743,8 @@ def run_case(case, drv):
         if case.get("kind") == "nested":
             return _run_nested(case, drv)
         from harness.corr import c17_util as U
+        if case.get("kind") == "scatter":
+            return U.run_scatter(case, drv)
         U.reset()
         with U.record_dicts():
             r = _run_case(case, drv)
@@ -762,7 +787,7 @@ def _run_nested(case, drv):
                 fn = U.CtxTermFn(name, (g, i))
             else:
                 fn = U.TermFn(name, (g, i))
-            objs[i] = Task(f"t{name}", fn, *[a[1] for a in st])
+            objs[i] = Task(f"t{name}", fn, *[U.Val(a[1], a[2]) if a[0] == "obj" else a[1] for a in st])
         wb = WorkflowBuilder(name=f"g{g}")
         for op in gr["ops"]:
             if op[0] == "new":
@@ -785,6 +810,15 @@ def _run_nested(case, drv):
     tags.append(f"nested-callers-in-parent={len(graphs[0]['calls'])}")
 
     # ---- reference: sequential evaluation, children first (independent of dask and of the model)
+    def lit(a):
+        """the rendering of a declared static input: a str, or a value object 'v<key>#<label>'"""
+        return f"v{a[1]}#{a[2]}" if a[0] == "obj" else a[1]
+    if any(a[0] == "obj" for gr in graphs for t in gr["tasks"] for a in t[2]):
+        tags.append("nested-scattered-static-inputs")
+        keys_ = [[a[1] for t in gr["tasks"] for a in t[2] if a[0] == "obj"] for gr in graphs]
+        if any(len(ks) != len(set(ks)) for ks in keys_):
+            tags.append("nested-equal-distinct-static-objects")
+
     def seq(g, realised):
         order, preds, spec = info[g]
         pos = {t: j for j, t in enumerate(order)}
@@ -795,7 +829,7 @@ def _run_nested(case, drv):
             args = ["ctx"] if sp[1] else []
             if str(t) in graphs[g]["calls"]:
                 args.append(seq(graphs[g]["calls"][str(t)], realised))
-            args += [a[1] for a in sp[2]]
+            args += [lit(a) for a in sp[2]]
             key = (lambda p: (bool(spec[p][1]), pos[p])) if realised else (lambda p: pos[p])
             args += [val[p] for p in sorted(preds[t], key=key)]
             val[t] = f"t{name}(" + ",".join(args) + ")"
@@ -888,7 +922,7 @@ def _run_nested(case, drv):
             gr = graphs[g]
             tl = []
             for t in gr["tasks"]:
-                st = list(t[2])
+                st = [["s", lit(a)] for a in t[2]]      # the model's static inputs are opaque literals
                 if str(t[0]) in gr["calls"]:
                     cv = model_value(gr["calls"][str(t[0])])
                     st = [["s", cv[1] if cv[0] == "ok" else "?"]] + st
